@@ -232,10 +232,82 @@ func runVp8UnmarshalSeq(payloads [][]byte, descs []*vp8Desc, rests [][]byte) Out
 	return o
 }
 
+// op 1104: n s pid x i m pictureID l tl0 t k tid y keyidx xrest - a descriptor for the independent
+// RFC 7741 encoder above; decoded fields are compared with the description, and every strict
+// prefix of the descriptor must be rejected.
+func (d vp8Desc) toks(rest []byte) []Tok {
+	return []Tok{TI(b2i(d.n)), TI(b2i(d.s)), TI(int64(d.pid)), TI(b2i(d.x)), TI(b2i(d.i)), TI(b2i(d.m)), TI(int64(d.pictureID)),
+		TI(b2i(d.l)), TI(int64(d.tl0)), TI(b2i(d.t)), TI(b2i(d.k)), TI(int64(d.tid)), TI(b2i(d.y)), TI(int64(d.keyidx)), TBytes(rest)}
+}
+
+func vp8DescFromToks(t []Tok) (vp8Desc, []byte) {
+	b := func(i int) bool { return tokInt(t[i]) != 0 }
+	return vp8Desc{n: b(0), s: b(1), pid: int(tokInt(t[2])), x: b(3), i: b(4), m: b(5), pictureID: int(tokInt(t[6])), l: b(7),
+		tl0: int(tokInt(t[8])), t: b(9), k: b(10), tid: int(tokInt(t[11])), y: b(12), keyidx: int(tokInt(t[13]))}, tokBytes(t[14])
+}
+
+func runVp8Desc(d vp8Desc, rest []byte) Outcome {
+	wire := d.encode()
+	full := append(append([]byte{}, wire...), rest...)
+	o := runVp8UnmarshalSeq([][]byte{full}, nil, nil)
+	o.Nontrivial = true
+	fail := func(format string, a ...interface{}) {
+		if o.Fail == "" {
+			o.Fail = fmt.Sprintf(format, a...)
+		}
+	}
+	p := &codecs.VP8Packet{}
+	out, err := p.Unmarshal(append([]byte{}, full...))
+	if err != nil {
+		fail("complete RFC 7741 descriptor %x followed by %d payload byte(s) rejected: %v", wire, len(rest), err)
+	} else {
+		want := vp8Desc{n: d.n, s: d.s, pid: d.pid, x: d.x}
+		if d.x {
+			want.i, want.l, want.t, want.k = d.i, d.l, d.t, d.k
+			if d.i {
+				want.m, want.pictureID = d.m, d.pictureID
+			}
+			if d.l {
+				want.tl0 = d.tl0
+			}
+			if d.t {
+				want.tid, want.y = d.tid, d.y
+			}
+			if d.k {
+				want.keyidx = d.keyidx
+			}
+		}
+		if p.X != b2u(want.x) || p.N != b2u(want.n) || p.S != b2u(want.s) || int(p.PID) != want.pid || p.I != b2u(want.i) || p.L != b2u(want.l) ||
+			p.T != b2u(want.t) || p.K != b2u(want.k) || int(p.PictureID) != want.pictureID || int(p.TL0PICIDX) != want.tl0 ||
+			int(p.TID) != want.tid || p.Y != b2u(want.y) || int(p.KEYIDX) != want.keyidx {
+			fail("descriptor %x decoded to %s", wire, Render(vVp8Pkt(p)))
+		}
+		if !bytes.Equal(out, rest) {
+			fail("bytes after the descriptor: got %x want %x", out, rest)
+		}
+	}
+	trunc := VList{}
+	for k := 0; k < len(wire); k++ {
+		q := &codecs.VP8Packet{}
+		var e2 error
+		if pn, _ := catch(func() { _, e2 = q.Unmarshal(append([]byte{}, wire[:k]...)) }); pn {
+			trunc = append(trunc, I(2))
+			fail("prefix of %d bytes of descriptor %x: panic", k, wire)
+		} else if e2 == nil {
+			trunc = append(trunc, I(0))
+			fail("descriptor %x cut to %d bytes accepted", wire, k)
+		} else {
+			trunc = append(trunc, I(1))
+		}
+	}
+	o.Impl = L(B(full), o.Impl, trunc)
+	return o
+}
+
 func init() {
 	register(&Prop{
 		ID:       "C11",
-		Rule:     "payloader histories (1-6 frames of 1-200 bytes, MTU 1-65535 with mass on header size +0..+3 and on len/k, picture ids on/off; long histories of 1-byte frames crossing picture id 127->128 and, in thorough, 32767->0); descriptor cases from an RFC 7741 generator over all X/I/M/L/T/K combinations with boundary field values, followed by 0-20 payload bytes, plus every truncation of each; non-trivial = a frame split in >= 2 fragments or picture ids enabled, or an accepted descriptor",
+		Rule:     "payloader histories (1-6 frames of 1-200 bytes, MTU 1-65535 with mass on header size +0..+3 and on len/k, picture ids on/off; long histories of 1-byte frames crossing picture id 127->128 and, in thorough, 32767->0); descriptor cases from an RFC 7741 generator over all X/I/M/L/T/K combinations with boundary field values, followed by 0-20 payload bytes (often none), each also as a self-describing case whose decoded fields are compared with the description and whose every strict prefix must be rejected; non-trivial = a frame split in >= 2 fragments or picture ids enabled, or an accepted descriptor",
 		Quick:    5000,
 		Thorough: 200000,
 		Gen: func(r *RNG, tier string, n int, emit func(op int, toks ...Tok)) {
@@ -309,6 +381,9 @@ func init() {
 						ps = append(ps, TB(b))
 					}
 					emit(1102, ps)
+					// a self-describing descriptor case: all flag combinations, 0-3 bytes after it
+					dd := genVp8Desc(c)
+					emit(1104, dd.toks(c.Bytes(c.Pick(0, 0, 1, 2, 3)))...)
 				}
 			}
 		},
@@ -316,6 +391,9 @@ func init() {
 			switch op {
 			case 1101:
 				return runVp8History(tokInt(toks[0]) != 0, int(tokInt(toks[1])), tokList(toks[2]))
+			case 1104:
+				d, rest := vp8DescFromToks(toks)
+				return runVp8Desc(d, rest)
 			case 1102:
 				var ps [][]byte
 				for _, t := range tokList(toks[0]) {
